@@ -43,7 +43,7 @@ PARTIAL = (
 )
 EXHAUSTIVE = False
 ALARM_S = 20
-STRATEGIES = ["median", "mean", "max", "min", "halfmean"]
+STRATEGIES = ["median", "mean", "max", "min", "halfmean", "meanminus1", "negmean"]
 
 # --------------------------------------------------------------------------- generators
 
@@ -108,8 +108,10 @@ def _case(rng, zero=False):
             flt = {"cls": "LE", "crit": crits[j], "thr": thr}
         dmaker = {"name": "pipe", "filter": flt, "inner": spec}
     if zero:
-        how = rng.choice(["dup", "dup", "dup2", "zero-strategy"])
-        if how in ("dup", "dup2"):
+        how = rng.choice(["dup", "dup", "dup2", "zero-strategy", "negative-strategy"])
+        if how == "negative-strategy":  # a callable whose value is negative on some / all criteria
+            strategy = rng.choice(["meanminus1", "meanminus1", "negmean"])
+        elif how in ("dup", "dup2"):
             i, p = rng.sample(range(n), 2)
             rows[i] = list(rows[p])
             if how == "dup2" and n >= 4:
@@ -175,7 +177,8 @@ def _alarm(seconds):
 def _strategy_arg(name):
     if name in ("median", "mean"):
         return name
-    return {"max": lambda s: s.max(), "min": np.min, "halfmean": lambda s: 0.5 * s.mean()}[name]
+    return {"max": lambda s: s.max(), "min": np.min, "halfmean": lambda s: 0.5 * s.mean(),
+            "meanminus1": lambda s: s.mean() - 1.0, "negmean": lambda s: -s.mean()}[name]
 
 
 def _build_maker(spec):
@@ -375,6 +378,10 @@ def _strategy_exact(name, col):
         return sum(col) / n
     if name == "halfmean":
         return sum(col) / n / 2
+    if name == "meanminus1":
+        return sum(col) / n - 1
+    if name == "negmean":
+        return -sum(col) / n
     if name == "max":
         return col[-1]
     if name == "min":
@@ -472,7 +479,8 @@ def _simulate(case, run, order, frows):
     gaps = _gap_rows(frows, order, case["strategy"])
     evals = 1
     for t in range(n1 * case["repeat"]):
-        if not any(g > 0 for g in gaps[t % n1]):
+        if not any(g > 0 for g in gaps[t % n1]) or any(g < 0 for g in gaps[t % n1]):
+            # no bounded strict worsening exists (a negative bound admits none at all): refusal
             return evals, "ValueError"
         if evals >= len(answers):
             return evals + 1, "at least one more evaluation"
